@@ -18,11 +18,11 @@ ID = "C09"
 PROPS_FILES = ["Gama/Props/C09.lean", "Gama/Props/C09Solvers.lean", "Gama/Props/C09Net.lean", "Gama/Props/C09Cluster.lean",
                "Gama/Props/C09SvdDecompose.lean",
                "Gama/Props/C09NetScaling.lean", "Gama/Props/C09NetWitness.lean", "Gama/Props/C09InputGap.lean",
-               "Gama/Props/C09Xml.lean", "Gama/Props/C09Correlated.lean"]
+               "Gama/Props/C09Xml.lean", "Gama/Props/C09Correlated.lean", "Gama/Props/C09PeWitness.lean"]
 LEAN_TARGETS = ["Gama.Props.C09", "Gama.Props.C09Solvers", "Gama.Props.C09Net", "Gama.Props.C09Cluster",
                 "Gama.Props.C09SvdDecompose",
                 "Gama.Props.C09NetScaling", "Gama.Props.C09NetWitness", "Gama.Props.C09InputGap",
-                "Gama.Props.C09Xml", "Gama.Props.C09Correlated"]
+                "Gama.Props.C09Xml", "Gama.Props.C09Correlated", "Gama.Props.C09PeWitness"]
 DRIVERS = ["drv_stats"]
 RULE = ("generated noisy networks (2D direction/distance fixed and free, small-dof intersections, levelling, "
         "correlated coordinate clusters) x sigma-act x conf-pr in (0,1) x sigma-apr in {0.1..100} x 4 algorithms; "
